@@ -57,6 +57,7 @@ func vxRunCode() int
 func vxTraceChan(ch interface{})
 func vxTraceMutex(p interface{})
 func vxTraceMark(s string)
+func vxBarrier(k int)
 func vxFieldChan(obj interface{}, idx int) interface{}
 func vxChanCap(ch interface{}) int
 func vxRaceLog(on bool)
